@@ -389,6 +389,11 @@ _CMP_OPS = (2, 3, 4, 5, 6, 7, 8, 9, 10, 0, 1)
 def _s(text: str, multiline: bool) -> str:
     # (every third text gets an EMPTY line inside: the printers must indent it like the other lines, or the least-indentation rule of
     # the multi-line literal changes every other line when the text is compiled again)
+    if multiline and len(text) % 5 == 1:
+        # every line begins with a blank character that is not U+0020 (tab, no-break space, ideographic space): the reader's
+        # least-indentation rule counts spaces only, these characters belong to the text
+        lead = ("\t", "\u00a0", "\u3000")[len(text) % 3]
+        return lead + text.replace(" ", "\n" + lead, 1) + "\n" + lead + "last"
     return text.replace(" ", "\n\n" if len(text) % 3 == 0 else "\n", 1) + "\nlast" if multiline else text
 
 
